@@ -193,6 +193,11 @@ def setChains (s : State) (v : Val) : State :=
 def delChains (s : State) (v : Val) : State :=
   { s with chainIdx := v.chains.foldl (fun l c => sdel l (c, v.addr)) s.chainIdx }
 
+/-- `GetValidatorsByChain`: prefix scan of `0x22 ‖ chain`; the "address" is whatever follows the chain bytes
+in the key (`AddressForValidatorByNetworkIDKey`) -/
+def validatorsByChain (s : State) (c : Bytes) : List Bytes :=
+  (s.chainIdx.filter fun e => c.isPrefixOf (e.1 ++ e.2)).map fun e => (e.1 ++ e.2).drop c.length
+
 /-- `getUnstakingValidators` -/
 def getQ (s : State) (t : Int) : List Addr := (aget s.unstQ t).getD []
 
